@@ -6,6 +6,8 @@ export GOFLAGS=-mod=mod GOPROXY=off
 set -u
 cd $wt || exit 1
 git checkout -q -- . ; git clean -fdq
+# the seeded change is judged on top of /repo's current HEAD (fixes made since the worktree was created included)
+git checkout -q --detach $(git -C /repo rev-parse HEAD)
 demo=$(ls $dl/*_test.go | head -1)
 cp $demo $wt/$pkg/
 echo "== demo WITHOUT patch"; go test -count=1 -run 'Seeded' $pkg 2>&1 | tail -3
